@@ -832,6 +832,25 @@ def fresh_load(ctx):
                     if isinstance(x, ast.Name) and x.id in mvars:
                         bad = (x, 'module-level container ' + x.id)
                         break
+            # the dictionary handed in stays as it was (it is compared
+            # with to_dict() of the result and may be loaded again)
+            if not bad and nm == 'from_dict':
+                prm = [p_ for p_ in f.params if p_ in ('data', 'd', 'dct')]
+                for x in ast.walk(f.node):
+                    tgt = None
+                    if isinstance(x, ast.Call) and isinstance(
+                            x.func, ast.Attribute) and x.func.attr in (
+                            'pop', 'popitem', 'clear', 'update', 'setdefault',
+                            '__setitem__', '__delitem__') and isinstance(
+                            x.func.value, ast.Name):
+                        tgt = x.func.value.id
+                    elif isinstance(x, ast.Subscript) and isinstance(
+                            x.ctx, (ast.Store, ast.Del)) and isinstance(
+                            x.value, ast.Name):
+                        tgt = x.value.id
+                    if tgt is not None and tgt in prm:
+                        bad = (x, f'mutates its argument ({unparse(x)[:40]})')
+                        break
             if bad:
                 res.fail(ctx.finding(
                     'FRESH-LOAD', f, bad[0],
@@ -847,5 +866,16 @@ def fresh_load(ctx):
     return res
 
 
-RULES = [fresh_load, s1_keys, s2_roundtrip, s3_plain, s4_arity, s5_none, s6_optic,
+def c12_arg_names(ctx):
+    """shared with C12: arguments spelled like a parameter (x, self.x,
+    data['x']) are bound to that parameter - constructor calls in from_dict
+    included"""
+    from .C12 import arg_names_rule as _r
+    return _r(ctx)
+
+def derived_sync_rule(ctx):
+    from .common import derived_sync
+    return derived_sync(ctx, 'DERIVED-SYNC')
+
+RULES = [derived_sync_rule, c12_arg_names, fresh_load, s1_keys, s2_roundtrip, s3_plain, s4_arity, s5_none, s6_optic,
          s7_kwargs, plain_store, file_wrapper]
